@@ -98,8 +98,9 @@ def run_unit(unit, wd, canary=True, threads=4):
     r['smt_s'] = sum(f.get('time-micros', 0) for f in r['fn_times']) / 1e6
     r['verus_version'] = (j.get('verus') or {}).get('version')
     r['generated'] = text
-    if status == 'undecided' and res['raw_err']:
-        r['raw_err'] = res['raw_err'][-4000:]
+    if status == 'undecided':
+        r['raw_err'] = '\n'.join((d.get('rendered') or d.get('message') or '') for d in res['diags'] if d.get('level') == 'error')[:6000] \
+            or res['raw_err'][-3000:]
     # vacuity canary: every contract obligation must FAIL once `ensures false` is added
     if canary and status != 'undecided':
         obs = list(unit.obligations)
@@ -395,16 +396,7 @@ def debug_unit(name, keep=False):
     for n in r['notes']:
         print('  note:', n)
     if r.get('raw_err'):
-        for l in r['raw_err'].split('\n'):
-            if l.startswith('{'):
-                try:
-                    d = json.loads(l)
-                    if d.get('level') == 'error':
-                        print(d.get('rendered', ''))
-                except Exception:
-                    pass
-            else:
-                print(l)
+        print(r['raw_err'])
     for ob in u.obligations:
         print('  %-50s %-8s props=%s %s' % (ob.id, ob.kind, ','.join(ob.props), 'FAILED' if ob.errors else 'ok'))
         for e in ob.errors:
